@@ -750,6 +750,9 @@ func (tb *TB) sliceEscapes(ci *cellInfo, s *ssa.Slice, path []string) {
 			if name != "" && tb.ReadOnly(name) {
 				continue
 			}
+			if (name == "builtin.append" || name == "builtin.copy") && len(cc.Args) == 2 && cc.Args[1] == ssa.Value(s) && cc.Args[0] != ssa.Value(s) {
+				continue // only read as the source
+			}
 			if name == "" {
 				name = "dynamic"
 			}
